@@ -7,6 +7,10 @@ From SpyneV Require Import C01.Univ C01.XmlX C01.Call C01.CallSpec C01.XmlXProof
 Import ListNotations.
 Open Scope Z_scope.
 
+(** the model writes the request under the method name: spyne.const.REQUEST_SUFFIX is empty *)
+Lemma request_suffix_empty : xw_request_suffix = [].
+Proof. reflexivity. Qed.
+
 (* ------------------------------------------------------------------ the synthesised class table *)
 Lemma nth_flat_pair {A B} (g h : A -> B) : forall (l : list A) (i : nat),
   nth_error (flat_map (fun x => [g x; h x]) l) (2 * i) = option_map g (nth_error l i)
@@ -311,7 +315,7 @@ Section Fidelity.
     split; [exact Hreq|].
     assert (out_value P U0 i m ret = Ok vout) as Hov.
     { unfold ret_value in Erv. unfold out_value.
-      destruct (m_style m); try (injection Erv as <-; reflexivity).
+      destruct (m_style m); try (injection Erv as <-; destruct P; reflexivity).
       destruct (m_returns m) as [|r [|r2 rs]]; try (injection Erv as <-; reflexivity).
       destruct ret as [| | |l]; try discriminate.
       destruct (Nat.eqb (length l) (length (r :: r2 :: rs))) eqn:El; [|discriminate]. injection Erv as <-.
